@@ -94,10 +94,15 @@ func main() {
 	meta := gallina.NewMeta("C04", f.Seed, f.Tier)
 	meta.Rule = "one evaluation = one damaged copy of a generated database taken through open / query / append / close / open / query (3 cases = 3 aspects of the property); non-trivial = the damage changed the file and lies in the used part of it (not in preallocated space that is never read); distinct by (master, file, kind, offset, value)"
 
-	nm := f.Count(4, 4)
+	// quick: a compacted database with checkpoint, one without, a compacted one with several
+	// sessions after the compaction; thorough adds one without out-of-order ingestion (no WBL)
+	nm := 3 * f.Scale
+	if thorough {
+		nm = 4 * f.Scale
+	}
 	nrand := 2
 	if thorough {
-		nrand = 60
+		nrand = 15
 	}
 	var masters []*master
 	var pre strings.Builder
@@ -138,7 +143,10 @@ func main() {
 	for _, m := range masters {
 		for ti, t := range targets(m.files) {
 			r := gen.Fork(f.Seed, 5000+100*m.id+ti)
-			for _, d := range enumerate(r, t, thorough, nrand*f.Scale) {
+			// thorough tier: every offset of the newest WAL and WBL segment of the small database
+			// without checkpoint (master 1), and the first 600 bytes' worth of its newest chunk file
+			every := thorough && m.id%4 == 1 && (t.role == "wal" || t.role == "wbl")
+			for _, d := range enumerate(r, t, thorough, every, nrand*f.Scale) {
 				var orig []byte
 				if t.seg != nil {
 					orig = t.seg.bytes
